@@ -181,7 +181,7 @@ _PKG = {}
 def ensure_auto_pkg():
     if "dir" in _PKG:
         return _PKG["dir"]
-    d = tempfile.mkdtemp(prefix="verif_auto_")
+    d = tempfile.mkdtemp(prefix="verif_auto_", dir=os.environ.get("VERIF_TMP"))
     os.mkdir(os.path.join(d, "autonomous"))
     with open(os.path.join(d, "autonomous", "__init__.py"), "w") as f:
         f.write("")
